@@ -5,5 +5,5 @@ T=$(mktemp -d /tmp/tlcXXXX)
 cp /verif/spec/*.tla $T/
 cp ${2:-/verif/spec/cfg/trace-unfixed.cfg} $T/OTRTrace.cfg
 cd $T
-TRACE=$1 timeout 600 tlc -workers 1 -metadir $T/meta OTRTrace.tla 2>&1
+TRACE=$1 timeout 600 java -XX:+UseParallelGC -cp /opt/veriftools/tla/tla2tools.jar:/opt/veriftools/tla/CommunityModules-deps.jar tlc2.TLC -workers 1 -metadir $T/meta OTRTrace.tla 2>&1 | grep "MISMATCH\|PROP\|^Error\|TRACE-END\|nonexistent\|Attempted" | cut -c1-${TVW:-500} | head -${TVN:-20}
 rm -rf $T
